@@ -354,6 +354,9 @@ func enumerate(cfg Config, t treeDef, fixedTree bool, run func(kase)) {
 					r.implFail = (h2>>12)%8 == 0
 					r.tunnel = r.body == bodyNone && (h2>>16)%8 == 0
 					srv.filters = fcs[int(h2>>4)%len(fcs)]
+					if thorough && (h2>>28)%2 == 0 { // half of the thorough runs use the curated configurations
+						srv.filters = filterConfigs[int(h2>>4)%len(filterConfigs)]
+					}
 					mount := "bare"
 					switch (h2 >> 20) % 12 {
 					case 0:
